@@ -86,6 +86,22 @@ Proof.
 Qed.
 Print Assumptions C09_roots_custom.
 
+(* imports of input_types.py: every import item a RETAINED class refers to is in the emitted module - for
+   every retained set (so for the transitive closure _filter_class_defs emits, at any depth), whether
+   autoflake prunes the imports or gives up (the empty-enum-import quirk); unless it gives up, nothing
+   else is imported.  needs_wf: a class refers only to the preamble, its own enums, its own scalars. *)
+Theorem C09_imports_cover_retained : forall (p : pkg string), NoDup (map i_name (p_inputs p)) ->
+  needs_wf p -> forall retained d, In d (p_inputs p) -> In (i_name d, i_body d) retained ->
+  forall x, In x (i_needs d) -> In x (module_imports p retained).
+Proof. exact imports_cover_retained_lemma. Qed.
+Print Assumptions C09_imports_cover_retained.
+
+Theorem C09_imports_exact : forall (p : pkg string) retained x,
+  autoflake_gives_up p retained = false -> In x (module_imports p retained) ->
+  exists r, In r retained /\ In x (needs_lookup (p_inputs p) (fst r)).
+Proof. exact imports_exact_lemma. Qed.
+Print Assumptions C09_imports_exact.
+
 (* ---- non-vacuity: a cyclic graph with a self-loop, a dangling name and an unreachable component ---- *)
 Definition g_ex : graph :=
   [("A", ["B"; "C"; "B"]); ("B", ["A"; "B"]); ("C", ["Missing"]); ("D", ["A"]); ("E", [])].
@@ -96,12 +112,16 @@ Example C09_dfs_example :
 Proof. vm_compute. repeat split. Qed.
 
 Definition p_ex : pkg string := {|
-  p_inputs := [ {| i_name := "A"; i_deps := ["B"]; i_enums := ["Color"]; i_body := "class A" |};
-                {| i_name := "B"; i_deps := ["A"]; i_enums := []; i_body := "class B" |};
-                {| i_name := "C"; i_deps := []; i_enums := ["Size"]; i_body := "class C" |} ];
+  p_inputs := [ {| i_name := "A"; i_deps := ["B"]; i_enums := ["Color"]; i_body := "class A";
+                   i_needs := ["typing:Optional"; ".enums:Color"]; i_scalar_items := [] |};
+                {| i_name := "B"; i_deps := ["A"]; i_enums := []; i_body := "class B";
+                   i_needs := ["typing:Optional"; "datetime:datetime"]; i_scalar_items := ["datetime:datetime"] |};
+                {| i_name := "C"; i_deps := []; i_enums := ["Size"]; i_body := "class C";
+                   i_needs := [".enums:Size"; "pathlib:Path"]; i_scalar_items := ["pathlib:Path"; "m:parse_p"] |} ];
   p_enums := [("Color", "class Color"); ("Size", "class Size"); ("Kind", "class Kind"); ("Un", "class Un")];
   p_arg_inputs := ["B"]; p_arg_enums := []; p_res_enums := ["Kind"]; p_frag_enums := [];
-  p_custom := false; p_builder_inputs := ["C"]; p_builder_enums := ["Un"] |}.
+  p_custom := false; p_builder_inputs := ["C"]; p_builder_enums := ["Un"];
+  p_preamble := ["typing:Optional"; "typing:Any"; ".base_model:BaseModel"] |}.
 
 Example C09_generate_example :
   generate p_ex false false = Some ([("A", "class A"); ("B", "class B")], [("Color", "class Color"); ("Kind", "class Kind")]) /\
@@ -114,11 +134,22 @@ Proof. vm_compute. repeat split; repeat constructor; simpl; intuition discrimina
 Definition p_ex_custom : pkg string := {|
   p_inputs := p_inputs p_ex; p_enums := p_enums p_ex; p_arg_inputs := ["B"]; p_arg_enums := [];
   p_res_enums := ["Kind"]; p_frag_enums := []; p_custom := true;
-  p_builder_inputs := ["C"]; p_builder_enums := ["Un"] |}.
+  p_builder_inputs := ["C"]; p_builder_enums := ["Un"]; p_preamble := p_preamble p_ex |}.
 
 Example C09_custom_operations_regression :
   generate p_ex_custom false false =
     Some ([("A", "class A"); ("B", "class B"); ("C", "class C")],
           [("Color", "class Color"); ("Size", "class Size"); ("Kind", "class Kind"); ("Un", "class Un")]) /\
   option_map (fun r => map fst (fst r)) (generate p_ex false false) = Some ["A"; "B"].
+Proof. vm_compute. repeat split. Qed.
+
+(* imports: pruned to {A, B} the module imports exactly what A and B need (the scalar of the dependency B
+   included, C's scalar and the unused parse function dropped); when only C-free, enum-free B-like sets are
+   retained while another input uses an enum, autoflake gives up and every candidate stays *)
+Example C09_imports_example :
+  module_imports p_ex [("A", "class A"); ("B", "class B")] =
+    ["typing:Optional"; ".enums:Color"; "datetime:datetime"] /\
+  autoflake_gives_up p_ex [("B", "class B")] = true /\
+  module_imports p_ex [("B", "class B")] =
+    ["typing:Optional"; "typing:Any"; ".base_model:BaseModel"; "datetime:datetime"; "pathlib:Path"; "m:parse_p"].
 Proof. vm_compute. repeat split. Qed.
